@@ -11,7 +11,7 @@ fn trivia() -> Vec<&'static str> {
 }
 fn values() -> Vec<Value> {
     vec![Value::symbol("foo"), Value::from(12), Value::from("s"), Value::keyword("k"), Value::from('c'), Value::list(vec![1, 2]),
-         Value::from(vec![Value::symbol("a"), Value::from(1.5)]), Value::from(true), Value::Nil, Value::Null, Value::symbol("bar"), Value::from(-7), Value::symbol("-"), Value::symbol("+"), Value::symbol("...")]
+         Value::from(vec![Value::symbol("a"), Value::from(1.5)]), Value::from(true), Value::Nil, Value::Null, Value::symbol("bar"), Value::from(-7), Value::symbol("-"), Value::symbol("+"), Value::symbol("..."), Value::from('x'), Value::from('a'), Value::from(' '), Value::from('\n'), Value::from('\u{3bb}'), Value::from('('), Value::from("x y"), Value::from(1.5)]
 }
 
 fn cases(ob: &str) -> Vec<String> {
